@@ -1,16 +1,16 @@
 SPECIFICATION Spec
 CONSTANTS
   Pre = 0
-  NSamples = 2
-  FragSNs = {1}
+  NSamples = 1
+  FragSNs = {}
   NF = 2
-  MaxFaults = 3
+  MaxFaults = 1
   K = 3
-  MaxRounds = 6
-  MaxRematch = 0
-  Win = 256
-  Bursts = {}
-  OutageAt = 0
+  MaxRounds = 8
+  MaxRematch = 1
+  Win = 3
+  Bursts = {2, 3, 4, 7}
+  OutageAt = 1
   KeySNs = {}
   GenK = 3
 VIEW View
